@@ -532,6 +532,22 @@ func accumulatorRemoveRule(P *Program, R *Report) {
 		}
 		R.decide(rule, FuncKey(fn)+":E", "the witness carries e", e == "arg#2", e, P.Pos(fn.Pos()))
 	}
+	// Witness.Verify reports a witness as valid only if the relation holds for the witness's own pair and accumulator
+	if fn := mustFunc(P, R, rule, "revocation.(*Witness).Verify"); fn != nil {
+		be := P.bigEval(fn)
+		inline := eqTermMatcher(be, termFn("Exp", tsym(witD+".U"), tsym(witD+".E"), tsym(pkD+".N")), tsym(witD+".SignedAccumulator.Accumulator.Nu"))
+		mp(P, R, rule, "revocation.(*Witness).Verify:relation", "nil => u^e mod N compared equal to Nu of the witness's own accumulator (verify(w.U, w.E, w.SignedAccumulator.Accumulator, pk) true)", fn, AcceptNilErr(0), &MustPass{Match: func(a Atom) bool {
+			if c, ok := callAtom(a, True, "revocation.verify"); ok && len(callArgs(c)) == 4 {
+				ar := callArgs(c)
+				return desc(ar[0]) == witD+".U" && desc(ar[1]) == witD+".E" && desc(ar[2]) == witD+".SignedAccumulator.Accumulator" && desc(ar[3]) == pkD
+			}
+			return inline(a)
+		}})
+		mp(P, R, rule, "revocation.(*Witness).Verify:accumulator", "nil => the witness's signed accumulator verified under the given key", fn, AcceptNilErr(0), &MustPass{Match: func(a Atom) bool {
+			c, idx := callAndResult(a.V)
+			return c != nil && idx == 1 && a.Want == Nil && isCallTo(c, "revocation.(*SignedAccumulator).UnmarshalVerify") && desc(callArgs(c)[0]) == witD+".SignedAccumulator" && desc(callArgs(c)[1]) == pkD
+		}})
+	}
 	if fn := P.Func("revocation.verify"); fn != nil && len(fn.Params) == 4 { // (when inlined, renamed or reshaped, C09.b checks the test where it is made)
 		be := P.bigEval(fn)
 		mp(P, R, rule, "revocation.verify:relation", "verify is true only if u^e mod N compared equal to the accumulator's Nu", fn, AcceptTrue(0),
